@@ -118,3 +118,28 @@ package phase5
 //@   ensures e.From.Layer > e.To.Layer ==> u == e.To && v == e.From
 //@   ensures e.From.Layer == e.To.Layer ==> (e.From.LayerPos < e.To.LayerPos ? (u == e.From && v == e.To) : (u == e.To && v == e.From))
 //@   modifies nothing
+
+// ---------------------------------------------------------------------------
+// splines: end points (C05). The path from geom.Shortest runs from the end point to the start point, FitSpline
+// returns a chain along it, and the loop walks the chain backwards, reversing every piece - so the first route point
+// is the start anchor and the last one the end anchor. geom.Shortest's end points are a trusted contract.
+
+//@ spec splineEnds(r routableEdge) bool =
+//@   len(r.Points) >= 2
+//@   && r.Points[0][0] == r.From.X + r.From.W / 2.0 && r.Points[0][1] == r.From.Y + r.From.H
+//@   && r.Points[len(r.Points)-1][0] == r.To.X + r.To.W / 2.0 && r.Points[len(r.Points)-1][1] == r.To.Y
+
+//@ func execSplines
+//@   requires g != nil && routesOK(routes)
+//@   requires[apart] forall i int :: 0 <= i && i < len(routes) ==>
+//@       (routes[i].From.X + routes[i].From.W / 2.0 != routes[i].To.X + routes[i].To.W / 2.0 || routes[i].From.Y + routes[i].From.H != routes[i].To.Y)
+//@   ensures[ends|C05] forall i int :: 0 <= i && i < len(routes) ==> splineEnds(routes[i])
+//@   loop range(routes)#1 index c
+//@     invariant[|C05] forall i int :: 0 <= i && i < c ==> splineEnds(routes[i])
+//@     invariant[|C05] forall i int :: 0 <= i && i < c ==> allocatedArr(routes[i].Points)
+//@   assert[chain|C05] after "ctrls := geom.FitSpline" : len(ctrls) >= 1 && ctrls[0].p0 == end && ctrls[len(ctrls)-1].p3 == start
+//@   loop range(slices.Backward(ctrls))#1 index q
+//@     invariant[|C05] len(e.Points) == 4 * q && allocatedArr(e.Points)
+//@     invariant[|C05] forall i int :: 0 <= i && i < c ==> splineEnds(routes[i]) && allocatedArr(routes[i].Points) && arr(routes[i].Points) != arr(e.Points)
+//@     invariant[|C05] q >= 1 ==> e.Points[0][0] == ctrls[len(ctrls)-1].p3.X && e.Points[0][1] == ctrls[len(ctrls)-1].p3.Y
+//@     invariant[|C05] q >= 1 ==> e.Points[len(e.Points)-1][0] == ctrls[len(ctrls)-q].p0.X && e.Points[len(e.Points)-1][1] == ctrls[len(ctrls)-q].p0.Y
